@@ -3,7 +3,6 @@
 import numpy as np
 
 from toqito.helper import channel_dim
-from toqito.perms import swap
 
 
 def dual_channel(
@@ -93,5 +92,7 @@ def dual_channel(
     if isinstance(phi_op, np.ndarray):
         if len(phi_op.shape) == 2:
             d_in, d_out, _ = channel_dim(phi_op, dim=dims, compute_env_dim=False)
-            return swap(phi_op.conj(), dim=[[d_in[0], d_out[0]], [d_in[1], d_out[1]]])
+            # Exchange the input and output tensor factors of the row space and of the column space.
+            choi_blocks = np.reshape(phi_op.conj(), (d_in[0], d_out[0], d_in[1], d_out[1]))
+            return np.reshape(np.transpose(choi_blocks, (1, 0, 3, 2)), phi_op.shape)
     raise ValueError("Invalid: The variable `phi_op` must either be a list of Kraus operators or as a Choi matrix.")
